@@ -78,7 +78,7 @@ def make_params(sh):
             kw['quick_return'] = '__ret(@)'
         elif tail == 'dflt':
             kw['default_case'] = '=> __dflt(@)'
-        t1 = TraitInstr(Ch('tn', TRAIT_NAMES), 'X', err=Ch('te', [None, 'Er']), vars=Ch('tv', [None, [('v1', '__v1(@)'), ('v2', '__v2(v1, @.k)')]]),
+        t1 = TraitInstr(Ch('tn', TRAIT_NAMES), 'X', err=Ch('te', [None, 'Er']), vars=Ch('tv', [None, [('v1', '__v1(@)'), ('v2', '__v2(v1, @.k)')], [('v1', '__v1(@)'), ('v1', '__v2(v1, @.k)'), ('v2', '__v3(v1)')]], fork=True),     # third form: a re-bound name (shadowing): every binding is kept, in order
                         attribute=Ch('ta', [None, 'inline(always)']), impl_attribute=Ch('tia', [None, 'cfg(any())']), inner_attribute=Ch('tna', [None, 'allow(unused)']), tag='t1', **kw)
         if item == 'struct':
             nm = (lambda s: s) if shape == 'named' else (lambda s: None)
